@@ -16,6 +16,8 @@ def run(ctx):
     codec.pgn(ctx)
     codec.name(ctx)
     codec.claim_cmp(ctx)
+    ctx.rule("R-GETTER-FRESH", "a codec getter stores nothing, or every writer of its inputs resets what it memoises", floor=20)
+    codec.getter_fresh(ctx)
     ctx.assume("codec inputs are non-negative integers (bytes 0..255 for the byte view)")
     ctx.extra_cov["exhaustive"] = True
     return ("every obligation is discharged by abstract evaluation of the codec's expression trees in an exact bit-provenance domain: "
